@@ -18,14 +18,14 @@ W = 'w_machine'
 K = dict(ENTRY_GUARD=1, ENTER=2, REENTER=3, PRE_UPDATE=4, UPDATE=5, POST_UPDATE=6, PRE_REACT=7, REACT=8, QUERY=9, POST_REACT=10,
          EXIT_GUARD=11, EXIT=12, PLAN_SUCCEEDED=13, PLAN_FAILED=14)
 BIG = '1000000u'
-BOUND = {'R': '1000u', 'C': '10000u', 'CS': '20000u', 'S': '100000u', 'stub': '1000000u'}
+BOUND = {'R': '1000u', 'C': '100000u', 'CS': '200000u', 'S': '1000000u', 'stub': '2000000u'}
 
 GHOST = [
     'uint32_t g_clock;',
     'uint32_t g_t[16][2]; uint8_t g_st[16][2]; uint32_t g_lt[16][2];',
     'uint8_t g_entered; _Bool g_root_entered;',
     'struct TransitionT g_surv; _Bool g_has_surv; uint32_t g_rounds;',
-    'struct TransitionT g_pending;',
+    'struct TransitionT g_lastreq;   /* the outstanding request exactly as its requester issued it */',
     'struct Ev *g_event;',
     '#define WHO(st) ((st) != 255)',
 ]
@@ -73,8 +73,10 @@ def t_default(a):
 def req_ok(a):
     return '(%s._b0.destination == 255 || %s._b0.destination < %s)' % (a, a, N)
 def req_rel(new, old_, st):
-    """closure of the request-making control API: unchanged, or a new request whose origin is the calling state"""
-    return '(%s || (%s._b0.origin == %s && %s._b0.destination < %s && %s._b0.method == Method__NONE))' % (t_eq(new, old_), new, st, new, N, new)
+    """closure of the request-making control API: unchanged, or a new request whose origin is the calling state;
+    g_lastreq mirrors the request as issued (C07: payloads travel with the request they were attached to)"""
+    return ('((%s && %s) || (%s._b0.origin == %s && %s._b0.destination < %s && %s._b0.method == Method__NONE && %s))'
+            % (t_eq(new, old_), t_eq('g_lastreq', '__CPROVER_old(g_lastreq)'), new, st, new, N, new, t_eq('g_lastreq', new)))
 
 def protocol_pre(cb, st, active):
     """C01: when may this lifecycle callback be delivered to state st"""
@@ -118,8 +120,11 @@ def deliver(cb, st, flav, role, exact, layer='S'):
     if CB[cb][2]:
         req.append('{ptr:event} == g_event')                                   # C05: the caller's own event object
     if guard:
-        # C06 / C07: guards see the request under evaluation and the transition accepted so far
-        req.append(t_eq('(*control->_pendingTransition)', 'g_pending'))
+        # C06 / C07: guards see the request under evaluation (the outstanding request exactly as issued, staged in the
+        # registry) and the transition accepted so far in this processing step
+        # (the pending transition object is in no frame below R_, so what the first guard of a round is shown is what
+        #  every guard of the round is shown; that it equals the request as issued is R_::cancelledByGuards' precondition)
+        req.append('(control->_pendingTransition->_b0.destination == %s->registry.requested || (control->_pendingTransition->_b0.destination == 255 && %s->registry.active == 255))' % (c, c))
         req.append(implies('g_has_surv', t_eq('(*%s._currentTransition)' % CTL[flav]['plan'], 'g_surv')))
         req.append(implies('!g_has_surv', t_default('(*%s._currentTransition)' % CTL[flav]['plan'])))
     if cb in ('enter', 'reenter') :
@@ -129,7 +134,7 @@ def deliver(cb, st, flav, role, exact, layer='S'):
     if flav != 'Const':
         asg.append('%s->planData' % c)
     if flav in ('Full', 'Guard'):
-        asg += ['%s->request' % c, '%s._taskStatus' % CTL[flav]['plan']]
+        asg += ['%s->request' % c, 'g_lastreq', '%s._taskStatus' % CTL[flav]['plan']]
     if flav == 'Guard':
         asg.append('control->_cancelled')
     if life:
@@ -162,7 +167,7 @@ def logger_contracts():
     return {
         # parameters are unnamed in the library (FFSM2_UNUSED): _unnamed0 = context, _unnamed1 = origin, _unnamed2 = method
         'LoggerInterfaceT__recordMethod': dict(
-            requires=['g_clock < ' + BIG, '_unnamed2 < 16', 'g_lt[_unnamed2][WHO(_unnamed1)] == 0'],
+            requires=['g_clock < ' + BIG + ' * 2', '_unnamed2 < 16', '(_unnamed2 == 1 || _unnamed2 == 11 || g_lt[_unnamed2][WHO(_unnamed1)] == 0)'],
             assigns=['g_clock', 'g_lt[_unnamed2][WHO(_unnamed1)]'],
             ensures=['g_clock == __CPROVER_old(g_clock) + 1', 'g_lt[_unnamed2][WHO(_unnamed1)] == g_clock']),
     }
@@ -177,14 +182,14 @@ def s_contract(cb, st, for_layer='S_'):
     req, asg, ens = deliver(cb, st, flav, 'wrapper', False)
     c = core(flav)
     who = 'WHO(%s)' % st
-    req = list(req) + ['g_lt[%d][%s] == 0' % (kid, who)]
+    req = list(req) + ([] if cb in ('entryGuard', 'exitGuard') else ['g_lt[%d][%s] == 0' % (kid, who)])
     asg = list(asg) + ['g_lt[%d][%s]' % (kid, who), '%s._originId' % CTL[flav]['ctl']]
     ens = list(ens)
     # C06: scoped origin restored afterwards
     ens.append('%s._originId == __CPROVER_old(%s._originId)' % (CTL[flav]['ctl'], CTL[flav]['ctl']))
     # C16: with a logger attached exactly one method record, emitted before the user code of this delivery; none without
     ens.append(implies('%s->logger != (void*)0' % c, 'g_lt[%d][%s] == __CPROVER_old(g_clock) + 1 && g_lt[%d][%s] < g_t[%d][%s]' % (kid, who, kid, who, kid, who)))
-    ens.append(implies('%s->logger == (void*)0' % c, 'g_lt[%d][%s] == 0' % (kid, who)))
+    ens.append(implies('%s->logger == (void*)0' % c, 'g_lt[%d][%s] == __CPROVER_old(g_lt[%d][%s])' % (kid, who, kid, who)))
     if cb in ('entryGuard', 'exitGuard'):
         ens.append('__CPROVER_return_value == (!__CPROVER_old(control->_cancelled) && control->_cancelled)')     # C03: "newly cancelled"
     elif flav == 'Full' and cb not in ('planSucceeded', 'planFailed'):
@@ -297,6 +302,9 @@ def cs_contract(cb, lo, n):
     rng = '(int)(%s) <= (int){p-1} && (int){p-1} < (int)(%s) + (int)(%s) && (int)(%s) + (int)(%s) <= (int)%s' % (lo, lo, n, lo, n, N)
     out = dict(c)
     out['requires'] = [rng] + [x.replace("g_clock < " + BOUND['S'], "g_clock < " + BOUND['CS']) for x in c['requires']]
+    if cb in ('entryGuard', 'exitGuard'):
+        # C03 short-circuit: a guard is consulted only while the request has not been cancelled in this round
+        out['requires'] = out['requires'] + ['!control->_cancelled']
     out['requires_target'] = [x for x in c['requires_target']]
     return out
 
@@ -369,3 +377,281 @@ def cs_leaf_unit(cb):
 
 _CS_CBS = ('entryGuard', 'enter', 'reenter', 'preUpdate', 'update', 'postUpdate', 'preReact', 'react', 'postReact', 'query', 'exitGuard', 'exit')
 UNITS += [cs_inner_unit(cb) for cb in _CS_CBS] + [cs_leaf_unit(cb) for cb in _CS_CBS]
+
+# =============================================================================================
+# C_ layer: the composite (root region).  Callees: the head S_<INVALID> (who = 0, state 255) and CS_<0, Args, 0, all states>
+# (who = 1, state = prong), both replaced by their contracts.
+def subst_st(c, who, st, st_post=None):
+    """instantiate an S_-level contract (written for state 'ST?') at a fixed who and state expression"""
+    def f(x, post):
+        e = st_post if (post and st_post) else st
+        return x.replace('WHO(ST?)', str(who)).replace('ST?', e)
+    out = dict(c)
+    out['requires'] = [f(x, False) for x in c['requires']]
+    out['assigns'] = [f(x, False) for x in c['assigns']]
+    out['ensures'] = [(e[0], f(e[1], True)) if isinstance(e, tuple) else f(e, True) for e in c['ensures']]
+    out['requires_target'] = []
+    return out
+
+def head_contract(cb):
+    c = subst_st(s_contract(cb, 'ST?'), 0, '255')
+    c['requires'] = [x.replace('g_clock < ' + BOUND['S'], 'g_clock < ' + BOUND['CS']) for x in c['requires']]
+    if cb in ('entryGuard', 'exitGuard'):
+        c['requires'] = c['requires'] + ['!control->_cancelled']
+    return c
+
+def sub_contract(cb, n_expr=None):
+    """CS_<0, Args, 0, all>::wideX as seen from C_: prong in [0, N)"""
+    return cs_contract(cb, '0', N)
+
+C_RECS = dict(RECS); C_RECS.update({'S_head': r'^ffsm2::detail::S_<255,', 'CS_': r'^ffsm2::detail::CS_<0,.*,0,ffsm2::detail::TL_<A,B,C>>$',
+                                    'PlanT': r'^ffsm2::detail::PlanT<', 'PayloadPlanT': r'^ffsm2::detail::PayloadPlanT<', 'Bounds': r'^ffsm2::detail::Bounds$'})
+C_OPAQUE = OPAQUE + [r'^ffsm2::detail::S_<', r'^ffsm2::detail::CS_<']
+C_KEEP = {'PlanDataT': ['headStatus', 'subStatus', 'planExists', 'tasksBounds']}
+C_CALLS = {'re:^S_head__': 'contract', 're:^CS___': 'contract', 'PlanT__clear': 'contract'}
+PLAN_CLEAR = {'PlanT__clear': dict(requires=[], assigns=['*self->_planData'], ensures=['self->_planData->planExists == __CPROVER_old(self->_planData->planExists)'])}
+
+def tk(kid, who):
+    return 'g_t[%d][%d]' % (kid, who)
+def ticked(kid, who):
+    return '(%s > __CPROVER_old(g_clock) && %s <= g_clock)' % (tk(kid, who), tk(kid, who))
+def zero(kids, whos=(0, 1)):
+    return ['%s == 0 && g_lt[%d][%d] == 0' % (tk(k, w), k, w) for k in kids for w in whos]
+def marks(kids, whos=(0, 1)):
+    return [x for k in kids for w in whos for x in (tk(k, w), 'g_st[%d][%d]' % (k, w), 'g_lt[%d][%d]' % (k, w))]
+
+def c_target_req(flav, ev=False):
+    c = core(flav)
+    rt = [fresh('self'), fresh('control'), fresh(c, '*' + c),
+          '(%s->logger == (void*)0 || __CPROVER_is_fresh(%s->logger, sizeof(*%s->logger)))' % (c, c, c)]
+    if flav in ('Guard', 'Full', 'Plan'):
+        pl = CTL[flav]['plan']
+        rt.append(fresh('%s._currentTransition' % pl, '*%s._currentTransition' % pl))
+    if flav == 'Guard':
+        rt.append(fresh('control->_pendingTransition', '*control->_pendingTransition'))
+    if ev:
+        rt.append('{fresh:event}')
+    return rt
+
+def c_phase_contract(cb, post_side):
+    """C_::deepPreUpdate ... deepPostReact: head and active sub-state, each exactly once, in the fixed order"""
+    mid, flav, ev = CB[cb]
+    k = K[mid]
+    c = core(flav)
+    act = '%s->registry.active' % c
+    first, second = (1, 0) if post_side else (0, 1)
+    pl = CTL[flav]['plan']
+    return dict(
+        requires_target=c_target_req(flav, ev),
+        requires=['g_clock < ' + BOUND['C'], '%s < %s' % (act, N)] + zero([k]) + (['{ptr:event} == g_event'] if ev else []),
+        assigns=['g_clock', 'g_lastreq'] + marks([k]) + ['%s->request' % c, '%s->planData' % c, '%s._taskStatus' % pl, '%s._originId' % CTL[flav]['ctl']],
+        ensures=[('C05', '__CPROVER_old(g_clock) < %s && %s < %s && %s <= g_clock' % (tk(k, first), tk(k, first), tk(k, second), tk(k, second))),
+                 ('C05', 'g_st[%d][0] == 255 && g_st[%d][1] == %s' % (k, k, act)),
+                 ('C02', '((%s && %s) || (%s->request._b0.destination < %s && %s->request._b0.method == Method__NONE && (%s->request._b0.origin == 255 || %s->request._b0.origin == %s) && %s))'
+                  % (t_eq('%s->request' % c, '__CPROVER_old(%s->request)' % c), t_eq('g_lastreq', '__CPROVER_old(g_lastreq)'), c, N, c, c, c, act, t_eq('g_lastreq', '%s->request' % c))),
+                 'g_clock <= __CPROVER_old(g_clock) + 40',
+                 ('C06', '%s._originId == __CPROVER_old(%s._originId)' % (CTL[flav]['ctl'], CTL[flav]['ctl']))])
+
+def c_unit(name, fn, cbs, contract, extra_contracts=None, props=None, nparams=1, heads=True, subs=True, **kw):
+    contracts = {fn: contract}
+    for cb in cbs:
+        sfx = '__Ev' if CB[cb][2] else ''
+        if heads:
+            contracts['S_head__%s%s' % (DEEP[cb], sfx)] = head_contract(cb)
+        if subs:
+            contracts['CS___%s%s' % (WIDE[cb], sfx)] = sub_contract(cb)
+    contracts.update(extra_contracts or {})
+    u = dict(id='structure.C_.%s' % name, witness=W, recs=C_RECS, opaque=C_OPAQUE, opaque_keep=C_KEEP, props=props or ['C01', 'C05', 'C18'],
+             target=dict(cls=C_RECS['C_'], name=name, nparams=nparams), consts=CONSTS, need_consts=['ArgsT.STATE_COUNT'], ghost=GHOST,
+             calls=C_CALLS, contracts=contracts)
+    u.update(kw)
+    return u
+
+C_PHASES = [('preUpdate', False), ('update', False), ('postUpdate', True), ('preReact', False), ('react', False), ('postReact', True)]
+UNITS += [c_unit(DEEP[cb], 'C___%s%s' % (DEEP[cb], '__Ev' if CB[cb][2] else ''), [cb], c_phase_contract(cb, post), nparams=2 if CB[cb][2] else 1, props=['C05', 'C02', 'C06', 'C18'])
+          for cb, post in C_PHASES]
+
+# ---- C_ lifecycle (C01): enter / exit / changeToRequested
+def cur_surv(flav):
+    pl = CTL[flav]['plan']
+    return [implies('g_has_surv', t_eq('(*%s._currentTransition)' % pl, 'g_surv'))]
+
+PC = core('Plan')
+ACT = PC + '->registry.active'
+REQD = PC + '->registry.requested'
+LIFE_ASSIGNS = ['g_clock', 'g_entered', 'g_root_entered', PC + '->registry', PC + '->planData', 'control->_b0._originId']
+C_ENTER = dict(
+    requires_target=c_target_req('Plan'),
+    requires=['g_clock < ' + BOUND['C'], '%s < %s' % (REQD, N), ACT + ' == 255', '!g_root_entered && g_entered == 255'] + zero([K['ENTER']]) + cur_surv('Plan'),
+    assigns=LIFE_ASSIGNS + marks([K['ENTER']]),
+    ensures=[('C01', '%s == __CPROVER_old(%s) && %s == 255' % (ACT, REQD, REQD)),
+             ('C01', 'g_root_entered && g_entered == ' + ACT),
+             # the root's enter() precedes the state's
+             ('C01', '__CPROVER_old(g_clock) < %s && %s < %s && %s <= g_clock' % (tk(2, 0), tk(2, 0), tk(2, 1), tk(2, 1))),
+             ('C01', 'g_st[2][0] == 255 && g_st[2][1] == ' + ACT),
+             'g_clock <= __CPROVER_old(g_clock) + 40', 'control->_b0._originId == __CPROVER_old(control->_b0._originId)'])
+C_EXIT = dict(
+    requires_target=c_target_req('Plan'),
+    requires=['g_clock < ' + BOUND['C'], '%s < %s' % (ACT, N), 'g_root_entered && g_entered == ' + ACT] + zero([K['EXIT']]),
+    assigns=LIFE_ASSIGNS + marks([K['EXIT']]),
+    ensures=[('C01', ACT + ' == 255'), ('C01', '!g_root_entered && g_entered == 255'),
+             # the active state's exit() precedes the root's
+             ('C01', '__CPROVER_old(g_clock) < %s && %s < %s && %s <= g_clock' % (tk(12, 1), tk(12, 1), tk(12, 0), tk(12, 0))),
+             ('C01', 'g_st[12][0] == 255 && g_st[12][1] == __CPROVER_old(%s)' % ACT),
+             '%s == __CPROVER_old(%s)' % (REQD, REQD),
+             'g_clock <= __CPROVER_old(g_clock) + 40', 'control->_b0._originId == __CPROVER_old(control->_b0._originId)'])
+C_CHANGE = dict(
+    requires_target=c_target_req('Plan'),
+    requires=['g_clock < ' + BOUND['C'], '%s < %s' % (REQD, N), '%s < %s' % (ACT, N), 'g_root_entered && g_entered == ' + ACT]
+             + zero([K['ENTER'], K['EXIT'], K['REENTER']], (1,)) + cur_surv('Plan'),
+    assigns=LIFE_ASSIGNS + marks([K['ENTER'], K['EXIT'], K['REENTER']], (1,)),
+    ensures=[('C01', '%s == __CPROVER_old(%s) && %s == 255' % (ACT, REQD, REQD)),
+             ('C01', 'g_root_entered && g_entered == ' + ACT),
+             # exit(old) then enter(new), or reenter() alone when the state is already active
+             ('C02', implies('__CPROVER_old(%s) != __CPROVER_old(%s)' % (REQD, ACT),
+                             '__CPROVER_old(g_clock) < %s && %s < %s && %s <= g_clock && g_st[12][1] == __CPROVER_old(%s) && g_st[2][1] == %s && %s == 0'
+                             % (tk(12, 1), tk(12, 1), tk(2, 1), tk(2, 1), ACT, ACT, tk(3, 1)))),
+             ('C02', implies('__CPROVER_old(%s) == __CPROVER_old(%s)' % (REQD, ACT),
+                             '%s && g_st[3][1] == %s && %s == 0 && %s == 0' % (ticked(3, 1), ACT, tk(2, 1), tk(12, 1)))),
+             'g_clock <= __CPROVER_old(g_clock) + 40', 'control->_b0._originId == __CPROVER_old(control->_b0._originId)'])
+UNITS += [
+    c_unit('deepEnter', 'C___deepEnter', ['enter'], C_ENTER, props=['C01', 'C14', 'C18']),
+    c_unit('deepExit', 'C___deepExit', ['exit'], C_EXIT, extra_contracts=PLAN_CLEAR, props=['C01', 'C18']),
+    c_unit('deepChangeToRequested', 'C___deepChangeToRequested', ['enter', 'exit', 'reenter'], C_CHANGE, props=['C01', 'C02', 'C18'], heads=False),
+]
+
+# ---- C_ guards (C03) and query
+GC = core('Guard')
+G_ACT = GC + '->registry.active'
+G_REQD = GC + '->registry.requested'
+GUARD_ASSIGNS = ['g_clock', 'g_lastreq', GC + '->request', GC + '->planData', 'control->_b0._b0._b0._taskStatus', 'control->_cancelled', 'control->_b0._b0._b0._b0._originId']
+def guard_view():
+    """what every guard must be shown (C06/C07): the request under evaluation and the transition accepted so far"""
+    return ['(control->_pendingTransition->_b0.destination == %s || (control->_pendingTransition->_b0.destination == 255 && %s == 255))' % (G_REQD, G_ACT),
+            implies('g_has_surv', t_eq('(*control->_b0._b0._b0._currentTransition)', 'g_surv')),
+            implies('!g_has_surv', t_default('(*control->_b0._b0._b0._currentTransition)'))]
+def guard_effects(who_states):
+    """request closure over the states consulted"""
+    alts = ' || '.join('%s->request._b0.origin == %s' % (GC, s) for s in who_states)
+    return [('C03', '__CPROVER_return_value == (!__CPROVER_old(control->_cancelled) && control->_cancelled)'),
+            ('C02', '((%s && %s) || (%s->request._b0.destination < %s && %s->request._b0.method == Method__NONE && (%s) && %s))'
+             % (t_eq(GC + '->request', '__CPROVER_old(%s->request)' % GC), t_eq('g_lastreq', '__CPROVER_old(g_lastreq)'), GC, N, GC, alts, t_eq('g_lastreq', GC + '->request'))),
+            'control->_b0._b0._b0._b0._originId == __CPROVER_old(control->_b0._b0._b0._b0._originId)',
+            'g_clock <= __CPROVER_old(g_clock) + 40']
+def c_guard(kid, st, heads):
+    whos = (0, 1) if heads else (1,)
+    req = ['g_clock < ' + BOUND['C'], '%s < %s' % (st, N), '!control->_cancelled'] + guard_view()
+    asg = GUARD_ASSIGNS + marks([kid], whos)
+    ens = []
+    if heads:
+        # head first; the sub-state's guard is consulted iff the head did not newly cancel (short-circuit)
+        ens.append(('C03', '%s && g_st[%d][0] == 255' % (ticked(kid, 0), kid)))
+        ens.append(('C03', implies('!(%s && !__CPROVER_old(control->_cancelled))' % 'control->_cancelled', '%s && %s < %s && g_st[%d][1] == %s' % (ticked(kid, 1), tk(kid, 0), tk(kid, 1), kid, st))))
+    else:
+        ens.append(('C03', '%s && g_st[%d][1] == %s' % (ticked(kid, 1), kid, st)))
+    ens += guard_effects(['255', st] if heads else [st])
+    return dict(requires_target=c_target_req('Guard'), requires=req, assigns=asg, ensures=ens)
+
+QC = core('Const')
+C_QUERY = dict(
+    requires_target=c_target_req('Const', True),
+    requires=['g_clock < ' + BOUND['C'], '%s->registry.active < %s' % (QC, N), '{ptr:event} == g_event'] + zero([K['QUERY']]),
+    # C05: query leaves the machine unchanged -- nothing of the core is in the frame
+    assigns=['g_clock', 'control->_originId'] + marks([K['QUERY']]),
+    ensures=[('C05', '%s && %s' % (ticked(9, 0), ticked(9, 1))), ('C05', 'g_st[9][0] == 255 && g_st[9][1] == %s->registry.active' % QC),
+             'control->_originId == __CPROVER_old(control->_originId)', 'g_clock <= __CPROVER_old(g_clock) + 40'])
+UNITS += [
+    c_unit('deepForwardExitGuard', 'C___deepForwardExitGuard', ['exitGuard'], c_guard(11, G_ACT, False), props=['C03', 'C18'], heads=False),
+    c_unit('deepForwardEntryGuard', 'C___deepForwardEntryGuard', ['entryGuard'], c_guard(1, G_REQD, False), props=['C03', 'C18'], heads=False),
+    c_unit('deepEntryGuard', 'C___deepEntryGuard', ['entryGuard'], c_guard(1, G_REQD, True), props=['C03', 'C04', 'C18']),
+    c_unit('deepQuery', 'C___deepQuery__Ev', ['query'], C_QUERY, props=['C05', 'C18'], nparams=2),
+]
+
+# =============================================================================================
+# R_ layer
+LIM = 'R___SUBSTITUTION_LIMIT'
+RC = 'self->_core'
+R_ACT = RC + '.registry.active'
+R_REQD = RC + '.registry.requested'
+R_OPAQUE = OPAQUE + [r'^ffsm2::detail::C_<']
+R_KEEP = {'PlanDataT': ['headStatus', 'subStatus', 'planExists']}
+R_TARGET = [fresh('self'), '(%s.logger == (void*)0 || __CPROVER_is_fresh(%s.logger, sizeof(*%s.logger)))' % (RC, RC, RC)]
+def t_empty(a):
+    return '(%s._b0.destination == 255)' % a
+INV = ['%s < %s' % (R_ACT, N), R_REQD + ' == 255', 'g_root_entered && g_entered == ' + R_ACT]      # machine invariant between API calls (C01)
+INV_POST = [('C01', '%s < %s && %s == 255' % (R_ACT, N, R_REQD)), ('C01', 'g_root_entered && g_entered == ' + R_ACT)]
+REQ_INV = [req_ok(RC + '.request'), implies('!' + t_empty(RC + '.request'), t_eq(RC + '.request', 'g_lastreq'))]
+
+LIFE1 = [K['ENTER'], K['REENTER'], K['EXIT']]
+R_GUARDS = dict(
+    requires_target=R_TARGET + [fresh('currentTransition'), fresh('pendingTransition')],
+    requires=['g_clock < 50000u', 'pendingTransition->_b0.destination == ' + R_REQD, 'pendingTransition->_b0.destination < ' + N, '%s < %s' % (R_ACT, N),
+              # C06 / C07: the guards are shown the outstanding request exactly as it was issued, and the transition accepted so far
+              t_eq('(*pendingTransition)', 'g_lastreq'),
+              implies('g_has_surv', t_eq('(*currentTransition)', 'g_surv')), implies('!g_has_surv', t_default('(*currentTransition)'))],
+    assigns=[RC + '.request', RC + '.planData', 'g_lastreq', 'g_clock'] + marks([K['ENTRY_GUARD'], K['EXIT_GUARD']], (1,)),
+    assigns_callee=['g_rounds', 'g_surv', 'g_has_surv'],
+    ensures=[# C03: exit guard of the active state first; the entry guard of the destination only if the exit guard did not cancel
+             ('C03', '%s && g_st[11][1] == %s' % (ticked(11, 1), R_ACT)),
+             ('C03', implies('!__CPROVER_return_value', '%s && %s < %s && g_st[1][1] == %s' % (ticked(1, 1), tk(11, 1), tk(1, 1), R_REQD))),
+             ('C03', '(%s == __CPROVER_old(%s) || (%s < %s && g_st[1][1] == %s))' % (tk(1, 1), tk(1, 1), tk(11, 1), tk(1, 1), R_REQD)),
+             'g_clock <= __CPROVER_old(g_clock) + 90',
+             ('C02', '((%s && %s) || (%s.request._b0.destination < %s && %s.request._b0.method == Method__NONE && %s))'
+              % (t_eq(RC + '.request', '__CPROVER_old(%s.request)' % RC), t_eq('g_lastreq', '__CPROVER_old(g_lastreq)'), RC, N, RC, t_eq('g_lastreq', RC + '.request')))],
+    ensures_callee=['g_rounds == __CPROVER_old(g_rounds) + 1',
+                    implies('!__CPROVER_return_value', 'g_has_surv && ' + t_eq('g_surv', '(*pendingTransition)')),
+                    implies('__CPROVER_return_value', 'g_has_surv == __CPROVER_old(g_has_surv) && ' + t_eq('g_surv', '__CPROVER_old(g_surv)'))])
+
+def life_effect(pre_active, surv_dest):
+    """C02: exit(old) then enter(new), or reenter() alone if that state is already active"""
+    return [implies('%s != %s' % (pre_active, surv_dest),
+                    '%s && %s < %s && g_st[12][1] == %s && g_st[2][1] == %s && %s == 0' % (ticked(12, 1), tk(12, 1), tk(2, 1), pre_active, surv_dest, tk(3, 1))),
+            implies('%s == %s' % (pre_active, surv_dest), '%s && g_st[3][1] == %s && %s == 0 && %s == 0' % (ticked(3, 1), surv_dest, tk(2, 1), tk(12, 1)))]
+
+PT_ASSIGNS = ['__CPROVER_object_whole(self)', '*currentTransition', 'g_rounds', 'g_surv', 'g_has_surv', 'g_lastreq', 'g_clock', 'g_entered', 'g_root_entered'] + \
+             marks([K['ENTRY_GUARD'], K['EXIT_GUARD']] + LIFE1, (1,))
+R_PT = dict(
+    requires_target=R_TARGET + [fresh('currentTransition')],
+    requires=['g_clock < ' + BOUND['R'], RC + '.request._b0.destination < ' + N, t_eq(RC + '.request', 'g_lastreq'), '%s < %s' % (R_ACT, N),
+              'g_root_entered && g_entered == ' + R_ACT, t_default('(*currentTransition)'), 'g_rounds == 0', '!g_has_surv'] + zero(LIFE1, (1,)),
+    assigns=PT_ASSIGNS,
+    ensures=[('C04', 'g_rounds <= ' + LIM),
+             ('C02', implies('g_has_surv', '%s == g_surv._b0.destination' % R_ACT)),
+             ('C02', implies('!g_has_surv', '%s == __CPROVER_old(%s)' % (R_ACT, R_ACT))),
+             ('C02', implies('!g_has_surv', '%s == 0 && %s == 0 && %s == 0' % (tk(2, 1), tk(3, 1), tk(12, 1)))),
+             ('C11', implies('g_has_surv', t_eq('(*currentTransition)', 'g_surv'))),
+             ('C11', implies('!g_has_surv', t_empty('(*currentTransition)'))),
+             ('C01', R_REQD + ' == 255'), ('C01', '%s < %s && g_root_entered && g_entered == %s' % (R_ACT, N, R_ACT)),
+             ('C04', REQ_INV[0]), ('C04', REQ_INV[1]), 'g_clock <= __CPROVER_old(g_clock) + 30000']
+            + [('C02', implies('g_has_surv', x)) for x in life_effect('__CPROVER_old(%s)' % R_ACT, 'g_surv._b0.destination')],
+    loops={0: dict(
+        assigns=['i', 'pendingTransition'] + PT_ASSIGNS,
+        invariant=['i <= ' + LIM, 'g_rounds <= i', 'g_clock <= __CPROVER_loop_entry(g_clock) + 100u * i', 'g_clock >= __CPROVER_loop_entry(g_clock)',
+                   'control._currentTransition == currentTransition && control._b0._core == &self->_core && control._b0._originId == 255',
+                   implies('g_has_surv', t_eq('(*currentTransition)', 'g_surv') + ' && g_surv._b0.destination < ' + N),
+                   implies('!g_has_surv', t_default('(*currentTransition)')),
+                   # the destination deepChangeToRequested() will enter is the survivor's (what F1 broke)
+                   implies('g_has_surv', R_REQD + ' == g_surv._b0.destination'),
+                   REQ_INV[0], REQ_INV[1],
+                   '%s == __CPROVER_loop_entry(%s)' % (R_ACT, R_ACT), 'g_root_entered && g_entered == ' + R_ACT] + zero(LIFE1, (1,)),
+        decreases=LIM + ' - i')})
+
+R_RECS = dict(RECS)
+R_CALLS = {'re:^C___': 'contract'}
+def r_unit(name, fn, contract, callee_contracts, props, nparams, calls=None, cls=r'^ffsm2::detail::R_<', **kw):
+    contracts = {fn: contract}
+    contracts.update(callee_contracts)
+    cl = dict(R_CALLS); cl.update(calls or {})
+    u = dict(id='root.%s' % name, witness=W, recs=R_RECS, opaque=R_OPAQUE, opaque_keep=R_KEEP, props=props,
+             target=dict(cls=cls, name=name, nparams=nparams), consts=CONSTS, need_consts=['ArgsT.STATE_COUNT'], ghost=GHOST, calls=cl, contracts=contracts)
+    u.update(kw)
+    return u
+
+UNITS += [
+    r_unit('processTransitions', 'R___processTransitions', R_PT,
+           {'R___cancelledByGuards': R_GUARDS, 'C___deepChangeToRequested': C_CHANGE},
+           ['C02', 'C03', 'C04', 'C07', 'C11', 'C01', 'C18'], 1, calls={'R___cancelledByGuards': 'contract'}),
+    r_unit('cancelledByGuards', 'R___cancelledByGuards', R_GUARDS,
+           {'C___deepForwardExitGuard': c_guard(11, G_ACT, False), 'C___deepForwardEntryGuard': c_guard(1, G_REQD, False)},
+           ['C03', 'C06', 'C07', 'C18'], 2),
+]
